@@ -206,11 +206,12 @@ func replayOnRealCode(o *Options, ob *Obligation, model string) map[string]inter
 	for name, c := range q.Params {
 		v, ok := vals[c]
 		if !ok {
-			return map[string]interface{}{"reproduced": false, "reason": "model has no value for parameter " + name}
+			continue
 		}
 		gv := goValue(theWorld, v)
 		if gv == nil {
-			return map[string]interface{}{"reproduced": false, "reason": "parameter " + name + " has a value the replay cannot build"}
+			// references (maps, functions, channels): the template supplies a witness of its own
+			continue
 		}
 		data[name] = gv
 		inputs[name] = gv
